@@ -202,7 +202,9 @@ func GetConverter(src, dest reflect.Type) func(dec *Decoder, o interface{}, p in
 	case reflect.String:
 		return strConverter
 	case reflect.Ptr:
-		if src == dest && src.Elem().Kind() == reflect.Struct ||
+		// a reference to a pointer of the destination's own type shares the pointee, whatever it is: a list
+		// that is still being decoded keeps growing, so a copy of its header would be stale
+		if src == dest ||
 			src == dest.Elem() && src.Kind() != reflect.Ptr {
 			return ptrCopy
 		}
